@@ -75,7 +75,7 @@ var probeTopics = [][]string{{"a"}, {"b"}, {"c"}, {"a", "b"}}
 var putTopics = [][]string{{"a"}, {"b"}, {"a", "b"}}
 
 // FiniteOps is the operation alphabet of C08.
-var FiniteOps = []string{"Put{a}", "Put{b}", "Put{a,b}", "Put(no topics)", "Put(ID wrong for the mode)"}
+var FiniteOps = []string{"Put{a}", "Put{b}", "Put{a,b}", "Put(no topics)", "Put(ID wrong for the mode)", "Replay(oldest buffered ID, {a,b})", "Replay(oldest buffered ID, {a}, first Send fails)"}
 
 type FiniteCfg struct {
 	N    int
@@ -131,6 +131,20 @@ func VisitFinite(c FiniteCfg, hist []uint8, which string, probes *int64) (uint64
 		var before uint64
 		if last {
 			before = deep.Hash(r)
+		}
+		if op >= 5 {
+			// a Replay as a step of the history (not only as a probe): it must not change what later steps see
+			w := &probeWriter{}
+			sub := sse.Subscription{Client: w, Topics: []string{"a", "b"}}
+			if op == 6 {
+				w.failAt = 1
+				sub.Topics = []string{"a"}
+			}
+			if len(model) > 0 {
+				sub.LastEventID = sse.ID(model[0].id)
+			}
+			_ = r.Replay(sub)
+			continue
 		}
 		valid := op <= 2
 		var topics []string
